@@ -56,8 +56,8 @@ PROFILES = {
     "C06": dict(need_ttl=True, lifetime=True),
     "C07": dict(policies=["fifo", "lru"], need_pressure=True, streaks=True, scenarios=True),
     "C08": dict(policies=["lfu", "arc", "tlru"], need_pressure=True, extra_ttl=[6, 10, 6], streaks=True, scenarios=True),
-    "C15": dict(),
-    "C16": dict(),
+    "C15": dict(limit0=True),
+    "C16": dict(extremes=True),
     "ALL": dict(extra_ttl=[6], streaks=True),
 }
 
@@ -69,6 +69,19 @@ def gen_cfg(r, prof):
     limit = r.pick([None, 1, 2, 3, 4])
     ttl = r.pick([None, None, 1, 2, 3] + prof.get("extra_ttl", []))
     mem = r.pick([None, None] + MEMS)
+    if prof.get("extremes") and r.chance(1, 6):
+        # the ends of the integer ranges the attributes accept (u64 / usize)
+        k = r.below(4)
+        if k == 0:
+            ttl = r.pick([18446744073709551615, 18446744073709551614, 9223372036854775808, 18446744073000000000])
+        elif k == 1:
+            limit = r.pick([18446744073709551615, 9223372036854775807])
+        elif k == 2:
+            mem = r.pick([18446744073709551615, 9223372036854775808])
+        else:
+            ttl, limit = 18446744073709551615, 18446744073709551615
+    if prof.get("limit0") and r.chance(1, 8):
+        limit = 0          # accepted by the attribute parser; the statistics clause has no lower bound on the limit
     if prof.get("need_limit") and limit is None:
         limit = 1 + r.below(4)
     if prof.get("need_ttl") and ttl is None:
@@ -154,12 +167,14 @@ def gen_lifetime(r, cfg):
 
 
 def gen_history(r, cfg, nops, mixed=False, streaks=False):
-    cap = cfg["limit"] if cfg["limit"] is not None else 3
+    cap = cfg["limit"] if cfg["limit"] is not None and cfg["limit"] < 1000 else 3
     alphabet = cap + 2
     ops = []
     vcounter = 0
     is_async = cfg["fl"] == "a"
     ttl = cfg["ttl"]
+    if ttl is not None and ttl > 1000:
+        ttl = 3            # an extreme ttl: time steps stay small (nothing ever expires)
     for _ in range(nops):
         # time step
         dt = 0
